@@ -346,7 +346,12 @@ type Set struct {
 
 // NewSet builds the checkers the way cmd/go-critic does (NewContext, then NewChecker per info).
 func NewSet(fset *token.FileSet, infos []*linter.CheckerInfo) (*Set, error) {
-	s := &Set{Ctx: linter.NewContext(fset, Sizes), Infos: infos}
+	return NewSetSizes(fset, infos, Sizes)
+}
+
+// NewSetSizes is NewSet for a target whose type sizes are not the host's (GOARCH=386 ...).
+func NewSetSizes(fset *token.FileSet, infos []*linter.CheckerInfo, sizes types.Sizes) (*Set, error) {
+	s := &Set{Ctx: linter.NewContext(fset, sizes), Infos: infos}
 	for _, info := range infos {
 		c, err := linter.NewChecker(s.Ctx, info)
 		if err != nil {
@@ -663,7 +668,10 @@ func writeContextPairs(mod string) {
 }
 
 // IsTimeout reports whether err is the wall-clock limit of common.Run / common.RunSplit.
-func IsTimeout(err error) bool { return err != nil && strings.Contains(err.Error(), "timeout after") }
+// (also: the process was killed by a signal from outside, e.g. the kernel's OOM killer while sibling jobs fill the machine)
+func IsTimeout(err error) bool {
+	return err != nil && (strings.Contains(err.Error(), "timeout after") || strings.Contains(err.Error(), "killed by a signal"))
+}
 
 // RunPatient is common.RunSplit for the oracles whose subject is NOT termination: a run that hits the wall-clock limit
 // (a normal run takes seconds; the limit is only there so that a hung binary cannot block the check for ever) is retried
@@ -671,8 +679,12 @@ func IsTimeout(err error) bool { return err != nil && strings.Contains(err.Error
 // as a failure of their property: a hang is C01's subject and is decided there by an unloaded sequential re-run.
 func RunPatient(limit time.Duration, dir string, env []string, name string, args ...string) (string, string, int, error) {
 	so, se, code, err := common.RunSplit(limit, dir, env, name, args...)
-	if IsTimeout(err) {
+	if IsTimeout(err) || (err == nil && code == -1) {
+		time.Sleep(5 * time.Second)
 		so, se, code, err = common.RunSplit(3*limit, dir, env, name, args...)
+	}
+	if err == nil && code == -1 {
+		err = fmt.Errorf("killed by a signal (not by this harness): no observation")
 	}
 	return so, se, code, err
 }
